@@ -77,6 +77,19 @@ def targets_for(rng, n):
     return out
 
 
+def stratum_cases():
+    """Deterministic stratum (every run, independent of the seed): sums all of whose leaves are already in one unit u,
+    with terms that are products / quotients / powers / exp of such leaves or bare numbers, converted to u and to None"""
+    cases = []
+    for name, tree, u in uc.same_unit_sums():
+        for tname, t in (('to its own unit', dict(uc.UTAB[u])), ('to None', None)):
+            if tree[0] == 9 and t is not None:
+                continue        # a relation can only be asked for dimensionless
+            cases.append({'kind': 'stratum', 'tree': uc.tree_json(tree), 'target': tjson(t), 'evaluate': False,
+                          'name': '%s %s' % (name, tname)})
+    return cases
+
+
 def gen_cases(seed, n_trees):
     rng = random.Random(seed)
     cases = []
@@ -372,7 +385,7 @@ def run(ctx):
                     'math.isclose(cf, 1.0) modelled as cf = 1 (generated scale ratios are exact powers of 2, 3, 5)']
     ctx.assume += ['exponents are dyadic rationals and non-zero (pint keeps {mV: 0} distinct from dimensionless)',
                    'fsem abstract; psem satisfies psem (s*x) q = s^q * psem x q for s > 0 (proved for Eval.pow_sem)']
-    cases = corpus_cases() + gen_cases(ctx.seed * 6007 + 17, n)
+    cases = corpus_cases() + stratum_cases() + gen_cases(ctx.seed * 6007 + 17, n)
     evaluate(ctx, cases, vlib.pmap(safe_work, cases))
     if ctx.tie_breaks and not ctx.violations:
         more = gen_cases(ctx.seed * 6007 + 7000003, 10 * n)
@@ -380,7 +393,7 @@ def run(ctx):
 
 
 def dev_cases(ctx, n):
-    return corpus_cases() + gen_cases(ctx.seed * 6007 + 17, n)
+    return corpus_cases() + stratum_cases() + gen_cases(ctx.seed * 6007 + 17, n)
 
 
 def replay(ctx, case):
